@@ -52,9 +52,10 @@ impl GenericIndex {
                     _ => false,
                 }),
 
-                Node::Typedef(v) => match v.target {
+                Node::Typedef(v) => match &v.target {
                     BasicType::Opaque => true,
-                    _ => index.contains(v.target.as_str()),
+                    BasicType::Ident(i) => index.contains(i.as_str()),
+                    _ => false,
                 },
 
                 Node::Root(v) => v.iter().fold(false, |mut acc, v| {
